@@ -1,5 +1,5 @@
 #!/usr/bin/env python3
-"""Write seeded/<id>-<k>/meta.json for the second- and third-round seeds from README.md, the
+"""Write seeded/<id>-<k>/meta.json for the seeds of round 2 onwards from README.md, the
 seed_verify log and the files seed_check left in the directory."""
 import json, os, re, sys, glob
 root = '/verif/seeded'
@@ -23,8 +23,15 @@ first_missed = {  # seeds the checks missed (or reported without a concrete inpu
  'C10-5': 'reported by C10 as it stood only in the no-failing-input-found form; Migrate steps between royalty updates, cadence monitor sees two raises inside 24 h, concrete replay since',
  'C11-6': 'MISSED by C11 as it stood (no flex member had mint count 0); boundary mint counts on both flex kinds, row-is-member theorems, detected since',
  'C14-5': 'MISSED by C14 as it stood (its migrate probe used the stored version, which returns early; C20 caught it); migrate steps over the cw2 grid in both Merkle whitelist histories and the minter world, membership sweep after every step, detected since',
+ # fourth round
+ 'C01-8': 'MISSED by C01 as it stood (no history burned a token on the collection); holder-side Burn / TransferNft in every family\'s histories, ledger of ids ever issued, Holder.v frame theorems, detected since',
+ 'C02-7': 'MISSED by C02 as it stood (no tiered whitelist in the C02 worlds); tiered whitelists with touching stages at different prices, ledger selects the stage by the documented rule, detected since',
+ 'C08-7': 'reported by C08 as it stood only in the no-failing-input-found form (52 correspondence disagreements on the wiring vector); chain-level administration monitor (collection wasm admin = creator named in the request), concrete replay since',
+ 'C14-7': 'MISSED by C14 as it stood (no UpdateStageConfig moved a stage across a neighbour); stage-update operations with the list_i <-> root_i pairing kept in the harness ledger, detected since',
+ 'C14-8': 'MISSED by C14 as it stood (no mint named stage Some(0) against a stage-less leaf or vice versa); stage argument x leaf format cross cases on every Merkle minter variant, detected since',
+ 'C19-8': 'MISSED by C19 as it stood (no open edition with an end time in the C19 worlds); every candidate anchor +/- offset probed at creation and on update against the harness ledger, detected since',
 }
-for d in sorted(glob.glob(root + '/C*-[3456]')):
+for d in sorted(glob.glob(root + '/C*-[345678]')):
     sid = os.path.basename(d); prop = sid.split('-')[0]
     readme = open(d + '/README.md').read()
     title = readme.splitlines()[0].lstrip('# ').strip()
